@@ -532,7 +532,13 @@ def main(tier):
     engine.judge = judge
     try:
         def post(ck, flex, scratch, cases, results, stats):
-            return {"faults_injected": stats.get('faults_injected', 0), "alloc_faults_injected": stats.get('alloc_faults_injected', 0)}
+            # 'token too large, exceeds YYLMAX' is a documented failure report too: the boundary probe of C13 (with and without
+            # text kept by yymore) is run here as well
+            from props import c13
+            extra = c13.yylmax_probe(ck, flex, scratch)
+            d = {"faults_injected": stats.get('faults_injected', 0), "alloc_faults_injected": stats.get('alloc_faults_injected', 0)}
+            d.update(extra or {})
+            return d
         return engine.standard_main(
             PROP, tier, "Properties_C14.v", build_cases,
             "(a) read faults: yyin is a stream whose low-level reads follow a schedule of short reads, EINTR and EIO (buffered and unbuffered "
